@@ -9,8 +9,11 @@ def run(ctx, out):
 
 
 def replay(ctx, rep):
-    from harness import krun
+    from harness import krun, common
     case = rep['case']
+    if case.get('scenario'):
+        return common.scenario_replay(ctx, rep, {'asym': asym_scenarios, 'hierarchy': hierarchy_scenarios,
+                                                 'retype': retype_scenarios})
     r = krun.Run(case, ['C03']).run()
     for s in r.steps:
         print(s['op'], '->', s['outcome'])
@@ -27,7 +30,7 @@ def retype_scenarios(ctx, out):
     from harness import common
     common.use_repo()
     from pyecore import ecore as E
-    rng = ctx.rng
+    rng = common.rng_for(ctx.seed, 'C03:retype')
     types = [('EInt', E.EInt, [3, -1], ['x']), ('EString', E.EString, ['a', ''], [4, 1.5]),
              ('EBoolean', E.EBoolean, [True], ['t', 7]), ('EDouble', E.EDouble, [1.5], [2, 'z'])]
     n = 60 if ctx.tier != 'thorough' else 1500
@@ -66,7 +69,7 @@ def retype_scenarios(ctx, out):
                     raised = 'BadValueError'
                 except Exception as e:  # noqa
                     raised = type(e).__name__
-                case = {'many': many, 'history': hist + [['store-on', who, repr(v)]]}
+                case = {'scenario': 'retype', 'seed': ctx.seed, 'tier': ctx.tier, 'many': many, 'history': hist + [['store-on', who, repr(v)]]}
                 if conforming and raised == 'BadValueError':
                     out.fail({'property': 'C03', 'clause': 'accept-after-retype', 'slot': who, 'many': many},
                              f'after retyping {t1[0]}->{t2[0]} the conforming value {v!r} is refused on a {who}', case)
@@ -94,3 +97,283 @@ _kernel_run = run
 def run(ctx, out):   # noqa: F811
     _kernel_run(ctx, out)
     retype_scenarios(ctx, out)
+
+
+# ---------------------------------------------------------------------------
+# class-level scenarios (oracle on the implementation only): the kernel model
+# works on a fixed conformance table; these exercise what feeds that table.
+
+def _dump(objs, feats):
+    d = {}
+    for i, o in enumerate(objs):
+        for fn in feats:
+            if o.eClass.findEStructuralFeature(fn) is None:
+                continue
+            v = o.eGet(fn)
+            if hasattr(v, '__iter__') and not isinstance(v, str):
+                d[f'{i}.{fn}'] = [objs.index(x) if x in objs else repr(x) for x in v]
+            else:
+                d[f'{i}.{fn}'] = None if v is None else (objs.index(v) if v in objs else repr(v))
+            d[f'{i}.{fn}.set'] = bool(o.eIsSet(fn))
+        c = o.eContainer()
+        d[f'{i}.container'] = None if c is None else (objs.index(c) if c in objs else '?')
+    return d
+
+
+def _store(E, obj, fname, many, path, v, keep=True):
+    """one public mutation path; returns None or the exception class name"""
+    try:
+        if many:
+            coll = obj.eGet(fname)
+            if path == 'append':
+                coll.append(v)
+            elif path == 'extend':
+                coll.extend([v])
+            elif path == 'insert':
+                coll.insert(0, v)
+            elif path == 'iadd':
+                coll += [v]
+            elif path == 'assign':
+                setattr(obj, fname, (list(coll) if keep else []) + [v])
+            elif path == 'setitem':
+                if len(coll):
+                    coll[0] = v
+                else:
+                    coll.append(v)
+            else:
+                raise AssertionError(path)
+        else:
+            if path == 'attr':
+                setattr(obj, fname, v)
+            elif path == 'eSet':
+                obj.eSet(fname, v)
+            elif path == 'eSetFeature':
+                obj.eSet(obj.eClass.findEStructuralFeature(fname), v)
+            else:
+                raise AssertionError(path)
+        return None
+    except E.BadValueError:
+        return 'BadValueError'
+    except Exception as e:  # noqa
+        return type(e).__name__
+
+
+MANY_PATHS = ['append', 'extend', 'insert', 'iadd', 'assign', 'setitem']
+ONE_PATHS = ['attr', 'eSet', 'eSetFeature']
+
+
+def asym_scenarios(ctx, out):
+    """bidirectional references whose far end is typed by a SUBCLASS of the class declaring the near end
+    (legal Ecore: the opposite is an inherited feature of the far end's type).  A store through the near end
+    by an owner the far end cannot hold must raise BadValueError and change nothing; no slot may ever show
+    a value outside its declared type."""
+    from harness import common
+    common.use_repo()
+    from pyecore import ecore as E
+    rng = common.rng_for(ctx.seed, 'C03:asym')
+    n = 40 if ctx.tier != 'thorough' else 600
+    cnt = rej = 0
+    for it in range(n):
+        near_many = rng.random() < 0.5
+        far_many = rng.random() < 0.6
+        unique = rng.random() < 0.6
+        cont = rng.choice([None, None, 'far']) if not near_many else None   # far end containment => near end is the container end
+        Node = E.EClass('Node')
+        File = E.EClass('File', superclass=(Node,))
+        Link = E.EClass('Link', superclass=(Node,))
+        Holder = E.EClass('Holder')
+        near = E.EReference('near', Holder, upper=-1 if near_many else 1, unique=unique)
+        far = E.EReference('far', File, upper=-1 if far_many else 1, unique=unique, containment=(cont == 'far'),
+                           eOpposite=near)
+        Node.eStructuralFeatures.append(near)
+        Holder.eStructuralFeatures.append(far)
+        objs = [Holder(), Holder(), File(), File(), Link(), Node()]
+        classes = ['Holder', 'Holder', 'File', 'File', 'Link', 'Node']
+        feats = ['near', 'far']
+        hist = []
+        conf = {'near_many': near_many, 'far_many': far_many, 'unique': unique, 'containment': cont}
+        for step in range(rng.randrange(3, 9)):
+            oi = rng.randrange(2, 6)          # a Node of some kind stores through the near end ...
+            hi = rng.randrange(0, 2)
+            through_far = rng.random() < 0.25  # ... or a Holder stores directly into the far end
+            if through_far:
+                obj, fname, many, v = objs[hi], 'far', far_many, objs[oi]
+                ok = classes[oi] == 'File'
+            else:
+                obj, fname, many, v = objs[oi], 'near', near_many, objs[hi]
+                ok = classes[oi] == 'File'
+            path = rng.choice(MANY_PATHS if many else ONE_PATHS)
+            before = _dump(objs, feats)
+            raised = _store(E, obj, fname, many, path, v)
+            after = _dump(objs, feats)
+            hist.append([objs.index(obj), fname, path, objs.index(v), raised])
+            cnt += 1
+            case = {'scenario': 'asym', 'seed': ctx.seed, 'tier': ctx.tier, 'conf': conf, 'history': [list(h) for h in hist]}
+            sig = {'property': 'C03', 'clause': None, 'near_many': near_many, 'far_many': far_many}
+            # (1) nothing outside its type, anywhere
+            for i, o in enumerate(objs):
+                if classes[i] == 'Holder':
+                    vs = o.far if far_many else ([o.far] if o.far is not None else [])
+                    bad = [objs.index(x) for x in vs if not isinstance(x, File.python_class)]
+                    if bad:
+                        sig['clause'] = 'nonconforming-value-stored'
+                        out.fail(sig, f'Holder.far (typed File) holds objects {bad} of classes {[classes[b] for b in bad]} '
+                                      f'after {hist[-1]} (raised: {raised})', case)
+                        break
+            else:
+                if not ok:
+                    rej += 1
+                    if raised != 'BadValueError':
+                        sig['clause'] = 'not-rejected'
+                        out.fail(sig, f'{hist[-1]}: the far end cannot hold a {classes[oi]} but the call gave {raised}', case)
+                    elif before != after:
+                        ch = sorted(k for k in after if before.get(k) != after[k])
+                        sig['clause'] = 'rejected-but-changed'
+                        out.fail(sig, f'{hist[-1]} raised BadValueError but changed {ch}', case)
+                    else:
+                        continue
+                    break
+                elif raised == 'BadValueError':
+                    sig['clause'] = 'conforming-refused'
+                    out.fail(sig, f'{hist[-1]}: conforming store refused', case)
+                    break
+                continue
+            break
+    out.coverage['asym_opposite_stores'] = cnt
+    out.coverage['asym_opposite_expected_rejections'] = rej
+
+
+def _linearizable(supers, n):
+    """would Python accept this class graph?  (C3 conflicts are C12's subject; they are not generated here)"""
+    built = {}
+
+    def mk(i, seen=()):
+        if i in built:
+            return built[i]
+        if i in seen:
+            raise TypeError('cycle')
+        bases = tuple(mk(j, seen + (i,)) for j in supers[i]) or (object,)
+        built[i] = type(f'K{i}', bases, {})
+        return built[i]
+    try:
+        for i in range(n):
+            mk(i)
+        return True
+    except TypeError:
+        return False
+
+
+def hierarchy_scenarios(ctx, out):
+    """eSuperTypes edited at run time (several super types, removal of one of them, re-adding), interleaved
+    with stores: a candidate conforms to a feature typed T iff T is its class or in the transitive closure of
+    the CURRENT eSuperTypes, for instances created before and after the edit, on used and fresh slots."""
+    from harness import common
+    common.use_repo()
+    from pyecore import ecore as E
+    rng = common.rng_for(ctx.seed, 'C03:hierarchy')
+    n = 40 if ctx.tier != 'thorough' else 600
+    NK = 5
+    cnt = edits = 0
+    for it in range(n):
+        K = [E.EClass(f'K{i}') for i in range(NK)]
+        Holder = E.EClass('Holder')
+        for i in range(NK):
+            Holder.eStructuralFeatures.append(E.EReference(f'r{i}', K[i]))
+            Holder.eStructuralFeatures.append(E.EReference(f'm{i}', K[i], upper=-1))
+        supers = {i: [] for i in range(NK)}
+        for i in range(NK):                      # an initial DAG, often with two super types
+            for j in rng.sample(range(i + 1, NK), min(NK - i - 1, rng.choice([0, 1, 2, 2]))):
+                trial = {k: list(v) for k, v in supers.items()}
+                trial[i].append(j)
+                if _linearizable(trial, NK):
+                    K[i].eSuperTypes.append(K[j])
+                    supers = trial
+        inst = {i: [K[i]()] for i in range(NK)}
+        holders = [Holder()]
+        hist = [['init', {str(k): v for k, v in supers.items()}]]
+        failed = False
+
+        def closure_of(ki):
+            closure, todo = set(), [ki]
+            while todo:
+                c = todo.pop()
+                if c not in closure:
+                    closure.add(c)
+                    todo += supers[c]
+            return closure
+
+        def store(ti, ki, many, path, h, v):
+            nonlocal cnt, failed
+            ok = ti in closure_of(ki)
+            # (values stored before an edit may no longer conform: whole-collection assignment replaces them)
+            raised = _store(E, h, f'{"m" if many else "r"}{ti}', many, path, v, keep=False)
+            hist.append(['store', holders.index(h), f'{"m" if many else "r"}{ti}', path, ki, inst[ki].index(v), raised])
+            cnt += 1
+            case = {'scenario': 'hierarchy', 'seed': ctx.seed, 'tier': ctx.tier, 'history': [list(x) for x in hist]}
+            sig = {'property': 'C03', 'clause': None, 'many': many}
+            if ok and raised is not None:
+                sig['clause'] = 'conforming-refused-after-hierarchy-edit'
+                out.fail(sig, f'K{ki} conforms to K{ti} (super types {supers}) but the store gave {raised}', case)
+                failed = True
+            if not ok and raised != 'BadValueError':
+                sig['clause'] = 'nonconforming-accepted-after-hierarchy-edit'
+                out.fail(sig, f'K{ki} does not conform to K{ti} (super types {supers}) but the store gave {raised}', case)
+                failed = True
+            hist.pop()
+
+        for step in range(rng.randrange(3, 9)):
+            r = rng.random()
+            if r < 0.7:
+                i = rng.randrange(NK)
+                if supers[i] and rng.random() < 0.6:
+                    j = rng.choice(supers[i])
+                    trial = {k: list(v) for k, v in supers.items()}
+                    trial[i].remove(j)
+                    how = rng.choice(['remove', 'pop'])
+                    if how == 'remove':
+                        K[i].eSuperTypes.remove(K[j])
+                    else:
+                        K[i].eSuperTypes.pop(supers[i].index(j))
+                    supers = trial
+                    hist.append(['unsuper', i, j, how])
+                else:
+                    j = rng.randrange(NK)
+                    trial = {k: list(v) for k, v in supers.items()}
+                    if j == i or j in trial[i]:
+                        continue
+                    trial[i].append(j)
+                    if not _linearizable(trial, NK):
+                        continue
+                    K[i].eSuperTypes.append(K[j])
+                    supers = trial
+                    hist.append(['super', i, j])
+                edits += 1
+            elif r < 0.85:
+                i = rng.randrange(NK)
+                inst[i].append(K[i]())
+                hist.append(['new', i])
+            else:
+                holders.append(Holder())
+                hist.append(['newholder'])
+            # after every step: every (feature type, candidate class) pair through one path each
+            for ti in range(NK):
+                for ki in range(NK):
+                    many = rng.random() < 0.5
+                    store(ti, ki, many, rng.choice(MANY_PATHS if many else ONE_PATHS), rng.choice(holders), rng.choice(inst[ki]))
+                    if failed:
+                        break
+                if failed:
+                    break
+            if failed:
+                break
+    out.coverage['hierarchy_stores_checked'] = cnt
+    out.coverage['hierarchy_edits'] = edits
+
+
+_run2 = run
+
+
+def run(ctx, out):   # noqa: F811
+    _run2(ctx, out)
+    asym_scenarios(ctx, out)
+    hierarchy_scenarios(ctx, out)
